@@ -1,5 +1,6 @@
 import SwcVerif.Refine.Asc
 import SwcVerif.Refine.AscParse
+import SwcVerif.Refine.AscTop
 import SwcVerif.Model.AlgoRunAsc
 /-! # C15, tied to the source by the translator
 
@@ -62,6 +63,25 @@ theorem generated_token_protocol_partial (encF : SwcText.Sci → Int) (toks : Li
   | cons u rest =>
     have : u ≠ Asc.Tok.bad := h u (by simp)
     cases u <;> simp_all [Asc.adv]
+
+
+open RefineAscParse RefineAscHeap RefineAscTop in
+/-- **generated parser ∘ generated walk = the model, explicit fuels** (`C15.convertWith N` is `Asc.convertTokens` with the fuel `N` of
+its loops made explicit; `convertTokens toks = convertWith (toks.length + 2) toks`): for EVERY token list without a lexer failure
+(`.bad` = `float()` raising inside the lexer, which is not part of the translated code), every encoding `encF` of the numbers (an opaque
+payload), every model fuel `N` with which the model does not run out of fuel, every fuel `G ≥ 2 N` of the translated
+`Parser._parse` (loops and the `_parse_subtree` ↔ `_parse_split` recursion) and every fuel `F ≥ 2·#heap` of the translated walk:
+`Parser(...)` (`next_token = None; _read_token()`), `_parse()`, `from_ast(ast)` AS TRANSLATED FROM THE SOURCE return exactly the model's
+table — the number of rows, ids 0 … m−1, the type of the tree's label, the four numbers of every point, the parents — or raise exactly
+when the model has an error. -/
+theorem generated_convert_eq_model_fuel (encF : SwcText.Sci → Int) (toks : List Asc.Tok) (hnb : NoBad toks) (N G : Nat) (hG : 2 * N ≤ G)
+    (hne : convertWith N toks ≠ .error .fuel) :
+    parser_read_token { lexer := toks.map (enc encF), next_token := none, nodes := [] } = some (st encF toks [], ()) ∧
+    match convertWith N toks with
+    | .error _ => parser_parse G (st encF toks []) = none
+    | .ok rows => ∃ p, parser_parse G (st encF toks []) = some (p, 0) ∧
+        ∀ F, 2 * p.nodes.length ≤ F → from_ast F p.nodes 0 = some ((rows.length : Int), colsOf (encRows encF 0 rows)) :=
+  ⟨init_st toks, convert_refines N G toks hnb hG hne⟩
 
 /-- non-vacuity (kernel-evaluated): the generated parser followed by the generated walk on the token stream of
 `( (Axon) (0 1 2 3) ( (4 5 6 7) | (8 9 10 11) ) )` gives three rows with parents −1, 0, 0, typed axon; the stream cut before its last
